@@ -170,6 +170,39 @@ pub fn for_each_string(run: &Run, f: &F, pool: &rayon::ThreadPool, visit: &(dyn 
     let g3 = st::g3(f, &sigma);
     run.count(&format!("g3_strings_{}", f.name), g3.len() as u64);
     pool.install(|| g3.par_iter().for_each(|s| visit(s)));
+    // G6: EVERY code point of a stated range in every position class of a small set of templates
+    // (alone, after / before / between name characters, after an atom prefix, as the only element
+    // of a set, as subject / predicate next to an unspaced copula, before a punctuation, as a
+    // truth number, doubled). Quick: the whole Basic Multilingual Plane, the emoji / symbol block
+    // U+1F000..U+1FAFF, the tag / variation-selector block U+E0000..U+E01FF, every 64th other
+    // supplementary code point and the last 16; thorough: all 1 112 064 Unicode scalar values.
+    let cps: Vec<char> = match tier {
+        Tier::Quick => (0u32..=0x10ffff)
+            .filter(|c| *c <= 0xffff || (0x1f000..=0x1faff).contains(c) || (0xe0000..=0xe01ff).contains(c) || c % 64 == 0 || *c >= 0x10fff0)
+            .filter_map(char::from_u32)
+            .collect(),
+        Tier::Thorough => (0u32..=0x10ffff).filter_map(char::from_u32).collect(),
+    };
+    let templates = st::code_point_templates(f, tier == Tier::Thorough);
+    run.bound("g6_code_points", json!(cps.len()));
+    run.bound("g6_templates", json!(templates.iter().map(|(a, b)| format!("{a}X{b}")).collect::<Vec<_>>()));
+    run.count(&format!("g6_strings_{}", f.name), (cps.len() * templates.len() + cps.len()) as u64);
+    pool.install(|| {
+        cps.par_iter().for_each(|c| {
+            let mut s = String::new();
+            for (pre, post) in &templates {
+                s.clear();
+                s.push_str(pre);
+                s.push(*c);
+                s.push_str(post);
+                visit(&s);
+            }
+            s.clear();
+            s.push(*c);
+            s.push(*c);
+            visit(&s);
+        });
+    });
 }
 
 pub fn small_stack_pool() -> rayon::ThreadPool {
